@@ -956,7 +956,7 @@ func bMul(intp *Interpreter) error {
 	} else {
 		ci := ai * bi
 		// check for integer overflow
-		if ai != 0 && ci/ai != bi {
+		if ai == -1 && bi == math.MinInt || bi == -1 && ai == math.MinInt || ai != 0 && ci/ai != bi {
 			intp.Stack = append(intp.Stack, Real(ai)*Real(bi))
 		} else {
 			intp.Stack = append(intp.Stack, ci)
@@ -1264,7 +1264,7 @@ func bSub(intp *Interpreter) error {
 	} else {
 		ci := ai - bi
 		// check for integer overflow
-		if (ai < 0 && bi > 0 && ci >= 0) || (ai > 0 && bi < 0 && ci <= 0) {
+		if (ai < 0 && bi > 0 && ci >= 0) || (ai >= 0 && bi < 0 && ci < 0) {
 			intp.Stack = append(intp.Stack, Real(ai)-Real(bi))
 		} else {
 			intp.Stack = append(intp.Stack, ci)
